@@ -78,6 +78,20 @@ CHECKS = {
         design_ref='DESIGN.md §3 C04',
         note=TB + 'between do_null_move and undo_null_move only balanced make/unmake happens (C03.R3).',
         technique='static: typestate abstract interpretation over CFGs, sibling-agreement (COVER) and who-may-write rules'),
+    'C10': dict(
+        category='proof',
+        text='Partial, by obligations (release configuration: asserts do not exist): every subscript into a fixed-extent '
+             'engine buffer (C arrays and std::array, ~830 sites per instantiation) and every square_bb shift is '
+             'discharged by a whole-program interval analysis (parameter-interval fixpoint, widening/narrowing, '
+             'branch refinement incl. NO_SQUARE tests, non-zero-guarded bit scans, out-parameters, context-sensitive '
+             'callee evaluation) or by one of a closed list of named structural rules (piece lists, lockstep counters, '
+             'list windows, bitbase index, e.p. geometry) under named chess assumptions; plus search-stack depth, PV '
+             'length, move-list rows, pin list, list capacity at every generate_moves call, depth-indexed array (via '
+             'C09), and definite assignment of uninitialised scalar locals. An unclassifiable site is a violation. '
+             'Heap containers and object lifetime at quit are not decided.',
+        design_ref='DESIGN.md §3 C10',
+        note=TB + 'assumptions named in evidence: A-PC/A-LIST, A-218, A-SM, A-EP, A-PAWN, A-WF, A-MAT, A-ENUM(decoders).',
+        technique='static: interprocedural interval abstract interpretation + named structural bound rules'),
     'C11': dict(
         category='proof',
         text='Full for slider lookups and leaper/line tables under stated structural side conditions: the magic constants '
